@@ -1563,6 +1563,17 @@ def _as_int(v):
     return int(m.group(1)) if m else None
 
 
+def _as_num(v):
+    """Integer or float constant (floats only ever compared: `timeout.as_secs_f64() > 0.0`)."""
+    i = _as_int(v)
+    if i is not None:
+        return i
+    if v is None or v[0] != "const" or v[1] is None:
+        return None
+    m = re.match(r"^(-?\d+(\.\d+)?([eE][-+]?\d+)?)(_?f(32|64))?$", str(v[1]))
+    return float(m.group(1)) if m else None
+
+
 def _freeze(v):
     return v
 
@@ -1681,10 +1692,22 @@ class AbsPaths:
                         val = ("refval", inner)
         elif k == "cast":
             val = self._eval_operand(st, r["o"])
+        elif k == "unop" and r.get("op") == "Not":
+            a = self._eval_operand(st, r["o"])
+            if a is not None and a[0] == "const" and a[1] in ("true", "false"):
+                val = ("const", "false" if a[1] == "true" else "true")
         elif k == "binop":
             a, b = self._eval_operand(st, r["a"]), self._eval_operand(st, r["b"])
-            ia, ib = _as_int(a), _as_int(b)
-            if ia is not None and ib is not None:
+            ia, ib = _as_num(a), _as_num(b)
+            bools = ("true", "false")
+            if a is not None and b is not None and a[0] == b[0] == "const" and a[1] in bools and b[1] in bools and r["op"] in ("BitOr", "BitAnd", "BitXor", "Eq", "Ne"):
+                x, y = a[1] == "true", b[1] == "true"
+                val = ("const", "true" if {"BitOr": x or y, "BitAnd": x and y, "BitXor": x != y, "Eq": x == y, "Ne": x != y}[r["op"]] else "false")
+            elif a is not None and a[0] == "const" and a[1] in bools and r["op"] in ("BitOr", "BitAnd") and (a[1] == "true") == (r["op"] == "BitOr"):
+                val = a      # true | x, false & x
+            elif b is not None and b[0] == "const" and b[1] in bools and r["op"] in ("BitOr", "BitAnd") and (b[1] == "true") == (r["op"] == "BitOr"):
+                val = b
+            elif ia is not None and ib is not None:
                 res = {"Eq": ia == ib, "Ne": ia != ib, "Lt": ia < ib, "Le": ia <= ib, "Gt": ia > ib, "Ge": ia >= ib}.get(r["op"])
                 if res is not None:
                     val = ("const", "true" if res else "false")
